@@ -201,6 +201,17 @@ theorem iptables_replace_converges_parsed (lines : List Str) (tb : Tables) (st :
       (∀ t, getA t tb = none → st'.get t = st.get t) :=
   restore_target tb st (parseIPTables_wft lines tb hp).2
 
+/-- **The start-up file at boot.**  `/etc/network/packet-filter` holds the same lines; at boot the kernel
+is empty, so after `iptables-restore` of that file the kernel holds the target's tables exactly and NO other
+table (what `Spec.bootIptOracle` tests on the file the real code copied to the simulated host). -/
+theorem startup_iptables_file_boots_target (lines : List Str) (tb : Tables)
+    (hp : parseIPTables lines = .ok tb) :
+    ∃ st', restore [] ((getIPTablesConfig tb).map toRLn) = some st' ∧
+      (∀ t cm, getA t tb = some cm → st'.get t = some (expTable t cm)) ∧
+      (∀ t, getA t tb = none → st'.get t = none) := by
+  obtain ⟨st', h1, h2, h3⟩ := iptables_replace_converges_parsed lines tb [] hp
+  exact ⟨st', h1, h2, fun t ht => by rw [h3 t ht]; rfl⟩
+
 /-- Hence "the device then holds exactly the target" is false as soon as the device has a table
 that the target does not name: it survives. -/
 theorem iptables_replace_converges_counterexample :
@@ -548,7 +559,7 @@ def obligations : List Lean.Name := [
   ``linux_routes_converge, ``linux_routes_converge_unrepaired_counterexample,
   ``linux_routes_one_hop_per_dst, ``routes_covered_linux, ``linux_addresses_stay_routed, ``linux_addresses_stay_routed_prefix, ``linux_routes_kernel_strict,
   ``iptables_diff_iff_partial, ``iptables_diff_iff_counterexample,
-  ``iptables_replace_converges_partial, ``iptables_replace_converges_parsed, ``iptables_replace_converges_counterexample,
+  ``iptables_replace_converges_partial, ``iptables_replace_converges_parsed, ``startup_iptables_file_boots_target, ``iptables_replace_converges_counterexample,
   ``normalize_idempotent_partial, ``normalize_idempotent_counterexample,
   ``normalize_sound_partial, ``normalize_sound_counterexample,
   ``kernel_roundtrip_partial, ``kernel_roundtrip_no_diff,
